@@ -382,6 +382,9 @@ func runSession(w *world, sp Spec, dir string) (tr Trace) {
 	}
 	prompt := sp.Prompt
 	rl.Prompt.Primary(func() string { return prompt })
+	if sp.Persist != "" {
+		rl.Hint.Persist(sp.Persist)
+	}
 	if sp.Mode == "vi" {
 		rl.Keymap.SetMain("vi-insert")
 	}
